@@ -121,6 +121,8 @@ class RefRun:
         self.nwrites = {}
         self.kind = {}
         self.flagmixed = set()
+        self.vmask = {}
+        self.lowprec = False
 
     # -- helpers
     def tok(self, h):
@@ -214,6 +216,12 @@ class RefRun:
             # returning the very same tensor, like NumPy, and is kept as an alias.)
             res = res.view()
         h = st["h"]
+        pp = st.get("p") or {}
+        if pp.get("where") is not None:
+            m = np.array(pp["where"], dtype=bool).reshape(pp["wshape"])
+            self.vmask[h] = np.broadcast_to(m, res.shape)
+        if pp.get("dtype") == "float32":
+            self.lowprec = True
         explicit = st.get("constant")
         allconst = all(self.const[a] for a in st["args"])
         const = explicit if explicit is not None else allconst
@@ -527,6 +535,8 @@ def expected_after_backward(prog, L, seed=None, upto=None, max_elems=400):
 
 
 def grad_tol(exp, dtype=np.float64):
+    if getattr(exp.ref, "lowprec", False):
+        dtype = np.float32  # a dtype=float32 option was used somewhere: the computation is single precision
     eps = np.finfo(dtype).eps
     scale = (1.0 + exp.gmax) * (1.0 + min(exp.vmax, 1e6))
     atol = 4e6 * eps * scale * 1e-1  # float64: ~1e-10 * scale
@@ -551,8 +561,11 @@ def compare_grads(exp, mgrun, handles=None, dtype=np.float64, check_values=True)
             ev = exp.values[h]
             if t.shape != ev.shape:
                 return Mismatch("value_shape", f"h{h}: {t.shape} != {ev.shape}", h=h)
-            if not np.allclose(t.data, ev, rtol=1e-9 if dtype == np.float64 else 1e3 * np.finfo(dtype).eps,
-                               atol=1e-9 * (1 + exp.vmax), equal_nan=True):
+            vm = exp.ref.vmask.get(h)
+            td, evv = (t.data, ev) if vm is None else (t.data[vm], ev[vm])
+            lp = getattr(exp.ref, "lowprec", False)
+            if not np.allclose(td, evv, rtol=1e-9 if (dtype == np.float64 and not lp) else 1e-4,
+                               atol=(1e-9 if not lp else 1e-5) * (1 + exp.vmax), equal_nan=True):
                 return Mismatch("value", f"h{h}: forward value differs from NumPy reference", h=h)
         eg = exp.grads.get(h)
         g = t.grad
